@@ -50,15 +50,23 @@ type call struct {
 
 func (c call) String() string { return fmt.Sprintf("%s(%d)", c.op, c.v) }
 
-func setOf(mask int) ordSet {
+// setOf decodes an AddSet/RemoveSet operand: bits 0..1 select the modelled values {a,b}; the rest
+// (v>>2) is a number of further "pad" values 100, 101, ... that only this call touches, which makes
+// the operand large without enlarging the modelled universe.
+func setOf(code int) ordSet {
 	var s ordSet
 	for v := 0; v < nvals; v++ {
-		if mask>>uint(v)&1 == 1 {
+		if code>>uint(v)&1 == 1 {
 			s = append(s, v)
 		}
 	}
+	for i := 0; i < code>>2; i++ {
+		s = append(s, 100+i)
+	}
 	return s
 }
+
+func big(mask, pad int) int { return mask | pad<<2 }
 
 // nvals is the value universe {a,b} of the scenarios (the model state has room for lin.Keys).
 const nvals = 2
@@ -120,6 +128,9 @@ type rec struct {
 	init   [lin.Keys]bool
 	ops    [][]lin.Op
 	groups [][]lin.Group // per thread, indices relative to the thread's ops
+	// (pad, 1|0) per finished AddSet/RemoveSet with pad values: they must all be present / absent afterwards
+	padAfter [][][2]int // per thread
+	padTotal int        // pad values of all operands of the scenario (a concurrent Len may count any of them)
 }
 
 func (r *rec) do(th int, c call) {
@@ -148,11 +159,14 @@ func (r *rec) do(th int, c call) {
 	case "AddSet", "RemoveSet":
 		kind := c.op[:len(c.op)-3]
 		var g lin.Group
-		for _, v := range setOf(c.v) {
+		for _, v := range setOf(c.v & 3) {
 			g.Idx = append(g.Idx, len(r.ops[th]))
 			r.ops[th] = append(r.ops[th], lin.Op{Kind: kind, Key: v, Thread: th*10 + 100 + v, Inv: inv, Ret: ret})
 		}
-		g.Count = n
+		// the pad values are touched by this call only: absent before an AddSet, present (put there by
+		// the set-up) before a RemoveSet, so each of them contributes exactly one to the count
+		g.Count = n - c.v>>2
+		r.padAfter[th] = append(r.padAfter[th], [2]int{c.v >> 2, map[string]int{"Add": 1, "Remove": 0}[kind]})
 		r.groups[th] = append(r.groups[th], g)
 	case "Len":
 		var g lin.Group
@@ -160,7 +174,7 @@ func (r *rec) do(th int, c call) {
 			g.Idx = append(g.Idx, len(r.ops[th]))
 			r.ops[th] = append(r.ops[th], lin.Op{Kind: "Has", Key: v, Thread: th*10 + 100 + v, Inv: inv, Ret: ret})
 		}
-		g.Count = n
+		g.Count, g.Slack = n, r.padTotal
 		r.groups[th] = append(r.groups[th], g)
 	}
 	_ = base
@@ -194,6 +208,19 @@ func scenario(lay layout, prog [][]call, bound, raceBound int) schk.Scenario {
 					r.s.Has(c.v)
 				case "Len":
 					r.s.Len()
+				}
+			}
+			r.padAfter = make([][][2]int, len(prog))
+			for _, p := range prog {
+				for _, c := range p {
+					if c.op == "AddSet" || c.op == "RemoveSet" {
+						r.padTotal += c.v >> 2
+					}
+					if c.op == "RemoveSet" {
+						for i := 0; i < c.v>>2; i++ {
+							r.s.Add(100 + i)
+						}
+					}
 				}
 			}
 			for t := range prog {
@@ -232,7 +259,7 @@ func scenario(lay layout, prog [][]call, bound, raceBound int) schk.Scenario {
 					}
 				}
 				for _, g := range r.groups[t] {
-					ng := lin.Group{Count: g.Count}
+					ng := lin.Group{Count: g.Count, Slack: g.Slack}
 					for _, ix := range g.Idx {
 						ng.Idx = append(ng.Idx, off+ix)
 					}
@@ -248,6 +275,15 @@ func scenario(lay layout, prog [][]call, bound, raceBound int) schk.Scenario {
 					n++
 				}
 				all = append(all, lin.Op{Kind: "Has", Key: v, Ok: final[v], Thread: 50 + v, Inv: last + 10 + 4*v, Ret: last + 11 + 4*v})
+			}
+			for _, pas := range r.padAfter {
+				for _, pa := range pas {
+					for i := 0; i < pa[0]; i++ {
+						if r.s.Has(100+i) != (pa[1] == 1) {
+							return schk.Failf("final-state", "value %d of a large AddSet/RemoveSet operand (touched by that call only): Has = %v afterwards", 100+i, r.s.Has(100+i)), ""
+						}
+					}
+				}
 			}
 			l, sl := r.s.Len(), r.s.Slice()
 			extra := 0 // crowd values outside the modelled universe
@@ -412,11 +448,34 @@ func main() {
 			}
 		}
 	}
+	// large operands: AddSet / RemoveSet of 32, 33 (64, 200) values, one or both of the modelled values
+	// among them, against a thread that adds / removes a modelled value and forces a promotion (Len)
+	{
+		pads := []int{32, 33}
+		if r.Thorough() {
+			pads = append(pads, 31, 64, 200)
+		}
+		var few []layout
+		for i, l := range layouts {
+			if i%ev.Pick(r, 12, 4) == 0 {
+				few = append(few, l)
+			}
+		}
+		for _, li := range few {
+			for _, pad := range pads {
+				for _, other := range [][]call{{{"Add", 0}, {"Len", 0}}, {{"Remove", 0}, {"Len", 0}}, {{"Add", 0}}, {{"Len", 0}, {"Add", 0}}, {{"Has", 2}, {"Add", 1}}} {
+					scs = append(scs, scenario(li, [][]call{{{"AddSet", big(1, pad)}}, other}, ev.Pick(r, 2, 3), -2))
+					scs = append(scs, scenario(li, [][]call{{{"RemoveSet", big(3, pad)}}, other}, ev.Pick(r, 2, 3), -2))
+				}
+				scs = append(scs, scenario(li, [][]call{{{"AddSet", big(3, pad)}}, {{"Add", 1}, {"Len", 0}}, {{"Remove", 0}}}, ev.Pick(r, 1, 2), -2))
+			}
+		}
+	}
 	schk.WorkerExtra = func() map[string]int64 {
 		return map[string]int64{"distinct_histories_judged_by_porcupine": int64(lin.Distinct())}
 	}
 	schk.Main(r, scs, ev.Pick(r, 45*time.Second, 1200*time.Second), func(r *ev.Run) {
-		r.Set("rule", "controlled scheduler over the instrumented sync2 package; programs of Add/Remove/Has/AddSet/RemoveSet/Len over values {a,b} from EVERY reachable concrete layout of a 2-value set (computed by explicit-state search; a spread-out subset for the larger programs): every pair of single calls under ALL interleavings, multisets of three single calls, pairs of two-call programs (and four single calls) under a preemption bound; oracle: porcupine set model with AddSet/RemoveSet/Len decomposed into per-element pseudo-operations inside the call's interval whose successes must add up to the returned count, final Has/Len/Slice after quiescence, and the derived accounting #successful Adds - #successful Removes = final - initial membership; pair scenarios also under the race detector inside every explored schedule")
+		r.Set("rule", "controlled scheduler over the instrumented sync2 package; programs of Add/Remove/Has/AddSet/RemoveSet/Len over values {a,b} from EVERY reachable concrete layout of a 2-value set (computed by explicit-state search; a spread-out subset for the larger programs): every pair of single calls under ALL interleavings, multisets of three single calls, pairs of two-call programs (and four single calls) under a preemption bound; AddSet/RemoveSet with operands of 32/33 (thorough: 31..200) values against Add/Remove/Len programs of another thread; oracle: porcupine set model with AddSet/RemoveSet/Len decomposed into per-element pseudo-operations inside the call's interval whose successes must add up to the returned count, final Has/Len/Slice after quiescence, and the derived accounting #successful Adds - #successful Removes = final - initial membership; pair scenarios also under the race detector inside every explored schedule")
 		r.Assume("more than 4 goroutines are outside the bound")
 	})
 }
